@@ -6,6 +6,7 @@ import (
 	"fmt"
 	"log/slog"
 	"math"
+	"sync"
 	"sync/atomic"
 	"time"
 
@@ -36,6 +37,8 @@ type SourceRunner struct {
 	clock               clocks.Clock
 	isHalting           atomic.Bool
 	stopLoop            context.CancelFunc      // Signal to stop the event loop if running
+	loopDone            chan struct{}           // Closed when the event loop of the current deployment has returned
+	startOutput         sync.Once               // Starts the consumer of the output stream
 	stop                context.CancelCauseFunc // Signal to stop all source runner processes
 	operatorFactory     proto.OperatorFactory
 	sourceReaderFactory func(*jobconfigpb.Source) connectors.SourceReader
@@ -198,6 +201,16 @@ func (r *SourceRunner) HandleDeploy(ctx context.Context, msg *workerpb.DeploySou
 		panic("exactly one source required")
 	}
 
+	// A source runner that survives the failure of another member is deployed
+	// again when the job recovers. The event loop of the previous deployment
+	// must be gone before the new one starts: two loops would share the reader,
+	// the barriers and the output stream, and the records of a split would
+	// reach the operators out of order.
+	r.stopLoop()
+	if r.loopDone != nil {
+		<-r.loopDone
+	}
+
 	r.watermarkTicker = time.NewTicker(time.Millisecond * 200)
 
 	deploymentCtx, cancel := context.WithCancel(context.Background())
@@ -218,19 +231,26 @@ func (r *SourceRunner) HandleDeploy(ctx context.Context, msg *workerpb.DeploySou
 		errChan:        r.errChan,
 	})
 
+	loopDone := make(chan struct{})
+	r.loopDone = loopDone
 	go func() {
-		if err := r.processEvents(r.ctx); err != nil {
+		defer close(loopDone)
+		if err := r.processEvents(deploymentCtx); err != nil {
 			r.Logger.Error("processEvents stopped with error", "err", err)
 		}
 		cancel()
 	}()
-	go func() {
-		for opEvent := range r.outputStream {
-			if err := r.sendOperatorEvent(opEvent); err != nil {
-				r.errChan <- err
+	// One consumer forwards the output stream for the life of the source runner,
+	// whatever the number of deployments.
+	r.startOutput.Do(func() {
+		go func() {
+			for opEvent := range r.outputStream {
+				if err := r.sendOperatorEvent(opEvent); err != nil {
+					r.errChan <- err
+				}
 			}
-		}
-	}()
+		}()
+	})
 
 	return nil
 }
